@@ -15,8 +15,9 @@ from engine.xh.model import new_env
 PARAMS = {}
 
 CMDS = ["assert0", "assert1", "assert2", "assert3", "assert4", "push1", "push2", "pop1", "pop2", "solve", "solve_model", "reset",
-        "is_sat", "is_sat_taut", "is_valid", "is_unsat", "end"]
-REDUCED = ["assert0", "assert2", "assert3", "assert4", "push1", "push2", "pop1", "solve_model", "reset", "is_sat", "is_sat_taut", "end"]
+        "is_sat", "is_sat_taut", "is_valid", "is_unsat", "push0", "pop0", "is_sat_model", "end"]
+REDUCED = ["assert0", "assert2", "assert3", "assert4", "push1", "push2", "pop1", "solve_model", "reset", "is_sat", "is_sat_taut", "pop0",
+           "is_sat_model", "end"]
 
 
 def decode(codes, k):
@@ -97,12 +98,12 @@ def history_body(codes, twin):
                     if nm.startswith("assert"):
                         solver.add_assertion(P[nm])
                         frames[-1].append(P[nm])
-                    elif nm in ("push1", "push2"):
+                    elif nm in ("push0", "push1", "push2"):
                         k = int(nm[-1])
                         solver.push(k)
                         for _ in range(k):
                             frames.append([])
-                    elif nm in ("pop1", "pop2"):
+                    elif nm in ("pop0", "pop1", "pop2"):
                         k = int(nm[-1])
                         if k > len(frames) - 1:
                             legal = False
@@ -148,6 +149,22 @@ def history_body(codes, twin):
                         if solver.is_sat(P["q_sat"]) != truth(live() + [P["q_sat"]]):
                             ok, why = False, "is_sat wrong"
                             break
+                    elif nm == "is_sat_model":
+                        # a one-shot query that answers sat keeps its model available until the next command
+                        want = truth(live() + [P["q_sat"]])
+                        if solver.is_sat(P["q_sat"]) != want:
+                            ok, why = False, "is_sat wrong"
+                            break
+                        if want:
+                            model = solver.get_model()
+                            fs = live() + [P["q_sat"]]
+                            it = {}
+                            for f in fs:
+                                for s_ in rs.free_vars(f):
+                                    it[s_] = model.get_py_value(s_)
+                            if not all(refeval.evaluate(f, it) for f in fs):
+                                ok, why = False, "model after is_sat does not satisfy the live assertions and the query"
+                                break
                     elif nm == "is_sat_taut":
                         if solver.is_sat(P["q_taut"]) != truth(live()):
                             ok, why = False, "is_sat(tautology) is not the satisfiability of the live assertions"
